@@ -79,11 +79,11 @@ def run_harnesses(harnesses, timeout_s, jobs=None, tag="run"):
             continue
         pd = pdet.get(hid, {})
         cs = cstat.get(hid, {})
-        o.wall_s = r.get("duration_ms", 0) / 1000.0
+        o.wall_s = (r.get("duration_ms") or 0) / 1000.0
         o.solver_s = float(cs.get("runtime_solver_s", 0) or 0) + float(cs.get("runtime_symex_s", 0) or 0)
-        o.queries = int(pd.get("total_properties", 0))
-        o.nontrivial = int(pd.get("passed", 0)) + int(pd.get("satisfied", 0))
-        o.paths = int(cs.get("vccs_generated", 0) or 0)
+        o.queries = int(pd.get("total_properties") or 0)
+        o.nontrivial = int(pd.get("passed") or 0) + int(pd.get("satisfied") or 0)
+        o.paths = int(cs.get("vccs_generated") or 0)
         status = r.get("status", "")
         checks = r.get("checks", [])
         failed = [c for c in checks if c.get("status") in ("Failure", "FAILURE", "Failed")]
